@@ -111,6 +111,54 @@ def rule_send_metric_callers(fm, rep, rid='R1c'):
            '%s hands a line to the sink on its own, outside the builder' % sorted(set(b.short() for b, _ in callers)))
 
 
+def rule_handler_callers(fm, rep, rid='R4w'):
+    """The handler has one door, too: inside the library `MetricBackend::consume_error` is called by the quiet
+    `MetricBuilder::send` only (and helpers only it calls), and the stored handler itself is invoked by
+    `StatsdClient::consume_error` only.  A second caller (a `Drop` impl reporting a failed flush, a metric method
+    reporting on its own) invokes the handler with an error no quiet send produced - or after one that succeeded."""
+    cad = fm.cad
+    from .qmodel import private_region
+    sends = cad.method(MB, 'send')
+    ce = [x for x in cad.all_bodies if x.impl_trait == BACKEND and (x.impl_self or '') == SC and x.name == 'consume_error']
+    if len(sends) != 1 or len(ce) != 1:
+        return              # reported by R4
+    region = private_region(cad, [sends[0]]) | {sends[0].path}
+    hregion = private_region(cad, [ce[0]]) | {ce[0].path}
+    hf = client_field(cad, 'errors')
+    callers, direct = [], []
+    n = 0
+    for b in cad.all_bodies:
+        if b.file.endswith('/test.rs') or '::tests::' in b.path:
+            continue
+        T = None
+        for bi, t in b.calls():
+            if b.blocks[bi]['cleanup']:
+                continue
+            if callee_is(t, BACKEND + '::consume_error') or t.get('resolved') == ce[0].path:
+                n += 1
+                if b.path not in region and not any(b.path.startswith(p_ + '::') for p_ in region):
+                    # pure forwarding (`impl MetricBackend for Wrapper`: consume_error(e) = inner.consume_error(e)) passes on an
+                    # error that somebody else produced: the producer is judged where it calls the wrapper
+                    T = T or Terms(b)
+                    ea = norm(T.call_term(bi))[2]
+                    if not (len(ea) == 2 and strip_views(ea[1])[0] == 'param' and b.name == 'consume_error'):
+                        callers.append((b, bi))
+            elif callee_is(t, 'core::ops::function::Fn>::call') and (b.impl_self or '') == SC and \
+                    b.path not in hregion and not any(b.path.startswith(p_ + '::') for p_ in hregion):
+                T = T or Terms(b)
+                ct = norm(T.call_term(bi))
+                if hf is not None and on_self_path(strip_views(ct[2][0]), hf):
+                    direct.append((b, bi))
+    rep.floor(rid, 'calls of MetricBackend::consume_error in the crate', n, 1)
+    rep.sites(n)
+    rep.ob(rid, 'consume_error-called-only-by-send', not callers, callers[0][0].where(callers[0][1]) if callers else '',
+           'the only caller of consume_error in the library is the quiet MetricBuilder::send' if not callers else
+           '%s reports to the error handler on its own, outside the quiet send' % sorted(set(b.short() for b, _ in callers)))
+    rep.ob(rid, 'handler-invoked-only-by-consume_error', not direct, direct[0][0].where(direct[0][1]) if direct else '',
+           'the stored handler is invoked by StatsdClient::consume_error only' if not direct else
+           '%s invokes the stored error handler directly' % sorted(set(b.short() for b, _ in direct)))
+
+
 def rule_send_metric(fm, rep, rid='R2'):
     cad = fm.cad
     bs = [b for b in cad.all_bodies if b.impl_trait == BACKEND and (b.impl_self or '') == SC and b.name == 'send_metric']
